@@ -30,6 +30,10 @@ def main():
                     mod.thorough(ctx)
             except SystemExit as e:
                 print(pid, 'EXTRACTION FAILED', e); continue
+            except Exception as e:
+                import traceback
+                tb = traceback.format_exc().strip().splitlines()
+                print('%s: CRASH %s: %s [%s]' % (pid, type(e).__name__, str(e)[:80], ' | '.join(x.strip() for x in tb[-4:-1])[:200])); any_fired = True; continue
             known = runner.load_known()
             new = [v for v in ctx.violations if (pid, v['key']) not in known]
             print('%s: %d violations' % (pid, len(new)))
